@@ -436,11 +436,33 @@ def determinism_scan(res):
 
 
 # ------------------------------------------------------------------------------------------------ C11(a) per token
+_SPEC = None
+
+
+def lexeme_spec():
+    global _SPEC
+    if _SPEC is None:
+        import importlib.util, sys
+        root = os.path.dirname(os.path.dirname(os.path.abspath(__file__)))
+        if root not in sys.path:
+            sys.path.insert(0, root)
+        sp = importlib.util.spec_from_file_location("verif_spec_lexemes", os.path.join(root, "spec", "lexemes.py"))
+        m = importlib.util.module_from_spec(sp)
+        sp.loader.exec_module(m)
+        _SPEC = m
+    return _SPEC
+
+
 class DiagTokenHarness(TokenHarness):
-    """one advance_token, then the REAL inner_extend_token on (kind, token text): a malformed token must get a message"""
-    def __init__(self, n, seed, known):
+    """one advance_token, then the REAL inner_extend_token on (kind, token text).  Obligations:
+       - a token whose TokenKind carries a malformation flag gets a message
+       - (independent of the lexer's flags) if the input starts with a malformed lexeme per /verif/spec/lexemes.py,
+         the first token gets a message"""
+    def __init__(self, n, seed, known, prefix=""):
         TokenHarness.__init__(self, n, seed, ("c11",))
         self.known = known
+        self.prefix = prefix
+        self._speccache = {}
 
     def make_exec(self):
         self.kit = LexerKit(("oq3_lexer", "oq3_parser"))
@@ -453,6 +475,8 @@ class DiagTokenHarness(TokenHarness):
     def run(self, ex):
         kit = self.kit; n = self.n
         s = kit.sym_string(n)
+        if self.prefix:
+            s = SymStr([ord(c) for c in self.prefix] + s.chars, "S")
         self.s = s
         kit.constrain(ex, s)
         cur = kit.new_cursor(ex, s)
@@ -472,6 +496,19 @@ class DiagTokenHarness(TokenHarness):
         self.info = {"kind": render_kind_fix(kit, tok[0], None)}
         if mal and not has_msg:
             raise Violation(f"malformed lexeme without a lexical diagnostic: {kname}", self.info)
+        if not has_msg:
+            specs = self._speccache.get("specs")
+            if specs is None:
+                L = lexeme_spec()
+                if self.prefix.startswith("OPENQASM"):
+                    specs = {"malformed_version_header": z3.Not(L.version_wellformed(s.chars[len(self.prefix):]))}
+                else:
+                    specs = L.malformed_specs(s.chars)
+                self._speccache["specs"] = specs
+            for nm, cond in specs.items():
+                ex.obligations += 1
+                self.info = {"kind": render_kind_fix(kit, tok[0], None), "spec": nm}
+                ex.prove(z3.Not(cond), f"input starts with a malformed lexeme ({nm}) but its token carries no lexical diagnostic", self.info)
         # the length recorded for the token table is the token's byte length
         self.same_len(ex, ln, span_len(s, 0, j), "inner_extend_token returns a length different from the token's byte length")
         return (kname, j)
@@ -488,15 +525,15 @@ class DiagTokenHarness(TokenHarness):
         return r
 
 
-def diag_factory(n, seed, known):
+def diag_factory(n, seed, known, prefix=""):
     def f():
-        return DiagTokenHarness(n, seed, known)
+        return DiagTokenHarness(n, seed, known, prefix)
     return f
 
 
-def run_diag_tokens(ctx, res, N):
+def run_diag_tokens(ctx, res, N, prefix=""):
     fails = {}
-    for n in range(1, N + 1):
+    for n in range(1 if not prefix else 0, N + 1):
         def on_records(recs):
             for r in recs:
                 if r[0] in ("ok", "sample"):
@@ -506,9 +543,9 @@ def run_diag_tokens(ctx, res, N):
                     d["count"] += 1
                     if len(d["examples"]) < 3:
                         d["examples"].append(r[3])
-        st, exhaustive, err = explore.explore(diag_factory(n, ctx.seed, ctx.known), workers=ctx.workers, seed=ctx.seed, on_records=on_records, log=ctx.log)
+        st, exhaustive, err = explore.explore(diag_factory(n, ctx.seed, ctx.known, prefix), workers=ctx.workers, seed=ctx.seed, on_records=on_records, log=ctx.log)
         res.merge_stats(st)
-        ctx.log(f"token diagnostics n={n}: {st.get('paths', 0)} paths ok={st.get('ok', 0)} violation={st.get('violation', 0)} panic={st.get('panic', 0)} "
+        ctx.log(f"token diagnostics {prefix!r}+n={n}: {st.get('paths', 0)} paths ok={st.get('ok', 0)} violation={st.get('violation', 0)} panic={st.get('panic', 0)} "
                 f"unsupported={st.get('unsupported', 0)} wall={st.get('wall', 0):.1f}s")
         if err:
             res.inconclusive.append(err[:500])
